@@ -10,6 +10,7 @@ pub mod c06;
 pub mod c07;
 pub mod c08;
 pub mod c09;
+pub mod c10;
 #[cfg(not(feature = "inproc"))]
 pub mod c12;
 pub mod c13;
@@ -51,6 +52,7 @@ table! {
     "C07" => c07::C07,
     "C08" => c08::C08,
     "C09" => c09::C09,
+    "C10" => c10::C10,
     #[cfg(not(feature = "inproc"))]
     "C12" => c12::C12,
     "C13" => c13::C13,
